@@ -247,6 +247,9 @@ def runDyn (c : Case) : List String := Id.run do
     | "fw" :: rest =>
       af := ⟨(saneN rest).getD 0, attList (kvGetD rest "atts" "")⟩
       if (saneN rest).isNone then out := s!"verdict BAD {qi} framework dump reports an impossible number of arguments (wrapped counter)" :: out
+      else if af.wfB && af.n ≤ 9 then
+        -- reference counts of the whole current framework (the dynamic solvers do not split into components)
+        out := s!"counts {qi} {(extsCF af).length},{(extsADM af).length},{(extsCO af).length},{(extsPR af).length},{af.n}" :: out
       labels := natList (kvGetD rest "labels" "-")
     | "ans" :: _ :: rest =>
       match q with
